@@ -261,7 +261,7 @@ def run_loop(ctx, pid):
                     if mi:
                         o["max_iter"] = mi
                     base.append(_e1job(D, "det", o, seed))
-    st = explore(base, ["ans"], 1, sink, name="det/b1", cap=None if q else 40000)
+    st = explore(base, ["ans"], 1, sink, name="det/b1", cap=None if q else 20000)
     # budget window (complete), deterministic
     bw = []
     for D in (1, 2):
@@ -320,7 +320,7 @@ def run_loop(ctx, pid):
                     nw.append(_e1job(D, j["mode"], {"max_fun_evals": mfe, "noise_final_samples": nfs}, seed))
     st = explore(nw, ["noise"], 0, sink, stats=st, name="noisy/budget-window")
     st = explore(nz, ["noise"], 1, sink, stats=st, name="noisy",
-                 pos_ok=lambda kind, pos, res: pos >= 30 and pos % (6 if q else 2) == 0, cap=None if q else st["executions"] + 20000)
+                 pos_ok=lambda kind, pos, res: pos >= 30 and pos % (6 if q else 2) == 0, cap=None if q else st["executions"] + 8000)
     # constrained runs (possibly empty search sets)
     cs = [_e1job(D, "det", {"tol_mesh": 2.0**-3, "complete_poll": cp}, seed, cons=c, geo="lin") for D in (1, 2) for cp in (False, True) for c in ("half", "ball", "annulus")]
     # thin feasible sets: whole poll candidate sets are filtered out (polls with zero evaluations), empty search sets
